@@ -4,9 +4,11 @@ line, one JSON object per output line.
 
   {"ver":12,"now":N,"results":[…as printed by Drivers/Engine.lean (`Wire.jResult`) / impl_engine.data_of…],
    "rejected":null|{"reason":R,"msg":S},"extra":{"<item index>":"<hex of TTLV items>", …}}
-    -> {"hex":"<response message bytes>"|null,"len":N|null,"inRange":bool,"valid":bool,"faults":[…]}
+    -> {"hex":"<response message bytes>"|null,"len":N|null,"inRange":bool,"valid":bool,"faults":[…],"gating":[…]}
        hex null = `ResponseMessage.write` raises (a mandatory field is missing); `inRange` = `responseInRange`
        (the explicit range predicate), `valid` = `Item.validB` of the tree, `faults` = `Envelope.faults`.
+  {"op":"check","ver":V,"hex":H}  -> the monitors on bytes the REAL server wrote (no model of the encoder involved):
+       {"ok":bool (strict M1 parse, no residue),"faults":[envelope],"gating":[tags the version excludes]}
   {"op":"consts"}  -> the constants of the model that are constants of the server (vendor identification)
 
 Anything else answers `bad-op …`.
@@ -75,6 +77,17 @@ def answer (j : Json) : P Json := do
   if !(jget j "op").isNull then
     match (← asStr (jget j "op")) with
     | "consts" => pure (Json.mkObj [("vendor", Json.str Encode.vendorIdentification)])
+    | "check" =>
+      -- the monitors on bytes the REAL server wrote: strict M1 parse, envelope, version gating
+      let ver ← asNat (jget j "ver")
+      match Encode.unhex (← asStr (jget j "hex")) with
+      | none => throw "check: not hexadecimal"
+      | some bs =>
+        match TTLV.decodeAll bs with
+        | none => pure (Json.mkObj [("ok", false)])
+        | some i => pure (Json.mkObj [("ok", true),
+            ("faults", Json.arr ((Envelope.faults (some (EngineResponse.verPair ver)) i).map Json.str).toArray),
+            ("gating", Json.arr ((Encode.gatingFaults ver i).map jNat).toArray)])
     | o => throw s!"op {o}"
   else
   let ver ← asNat (jget j "ver")
@@ -91,11 +104,12 @@ def answer (j : Json) : P Json := do
   let inRange := Encode.responseInRange ver now extras res
   match item with
   | none => pure (Json.mkObj [("hex", Json.null), ("len", Json.null), ("inRange", inRange), ("valid", false),
-                              ("faults", Json.arr #[])])
+                              ("faults", Json.arr #[]), ("gating", Json.arr #[])])
   | some i =>
     let bs := TTLV.encode i
     pure (Json.mkObj [("hex", hexOf bs), ("len", jNat bs.length), ("inRange", inRange), ("valid", i.validB),
-      ("faults", Json.arr ((Envelope.faults (some (EngineResponse.verPair ver)) i).map Json.str).toArray)])
+      ("faults", Json.arr ((Envelope.faults (some (EngineResponse.verPair ver)) i).map Json.str).toArray),
+      ("gating", Json.arr ((Encode.gatingFaults ver i).map jNat).toArray)])
 
 def step (line : String) : String :=
   match Json.parse line with
